@@ -284,6 +284,37 @@ deriving Repr, Inhabited
 def asyncAllowed (cfg : Cfg) (p target : Sid) : Bool :=
   ((cfg.sim target).succs.any (·.1 == p)) && ((cfg.sim target).succsWait.any (·.1 == p))
 
+/-! ### the data path of an asynchronous `get_data` (`MosaikRemote.get_data`)
+
+The request does not change the scheduler state (`stepGetDataReq`); what it *answers* is a function of the state:
+for every requested (entity, attribute) of `target` the value of `target`'s cache slice at the requester's
+`last_step` — which, inside the requester's `step`, is still the step *before* the running one (`sim.last_step` is assigned
+after `await sim.step(...)`), −1 before its first step — and, for whatever the slice does not hold (always everything when
+`cache=False`), the reply of `target`'s simulator to a forwarded `get_data`, merged in with `dict.update`. -/
+
+/-- `self.sim.last_step.time` of the requester -/
+def asyncLookupTime (s : State) (p : Sid) : Int :=
+  match (s.sims p).last with | some t => (TT.time t : Int) | .none => -1
+
+/-- the cache slice `MosaikRemote.get_data` reads for requests of `p` towards `target` -/
+def asyncSlice (cfg : Cfg) (s : State) (p target : Sid) : OutData :=
+  if cfg.useCache then getOutputFor (s.sims target).outputs (asyncLookupTime s p) else []
+
+/-- values found in the cache, in request order -/
+def asyncFound (cfg : Cfg) (s : State) (p target : Sid) (req : List Port) : OutData :=
+  req.filterMap fun r => (OutData.get? (asyncSlice cfg s p target) r).map fun v => (r, v)
+
+/-- the `missing` request forwarded to `target`'s simulator -/
+def asyncMissing (cfg : Cfg) (s : State) (p target : Sid) (req : List Port) : List Port :=
+  req.filter fun r => !(OutData.has (asyncSlice cfg s p target) r)
+
+/-- the dictionary handed back to the requesting simulator; `direct` is what `target`'s simulator answers to the forwarded
+request (consulted only if something is missing; *everything* it returns is merged in, `dict.update`) -/
+def asyncAnswer (cfg : Cfg) (s : State) (p target : Sid) (req : List Port) (direct : OutData) : OutData :=
+  let found := asyncFound cfg s p target req
+  if (asyncMissing cfg s p target req).isEmpty then found
+  else direct.foldl (fun acc e => OutData.set acc e.1 e.2) found
+
 def zeroExt (t : Nat) (depth : Nat) : TT := t :: List.replicate (depth - 1) 0
 
 /-- common guard: the run has not failed and `p` is a simulator -/
